@@ -31,7 +31,7 @@ type AddInputLabelsAction struct {
 	baseAction
 	interactiveAction
 
-	Labels []*assets.LabelReference `json:"labels" validate:"required,dive"`
+	Labels []*assets.LabelReference `json:"labels" validate:"required,dive,required"`
 }
 
 // NewAddInputLabels creates a new add labels action
